@@ -20,10 +20,19 @@ What is proved here (for all inputs, on the hand-written models that the harness
   `duplicate_id_rejected` (and `duplicate_across_classes_not_rejected`), `resolve_total_on_closed`,
   `resolve_dangling_rejected`, and the composition with the XML layer `resolve_then_ids_roundtrip`.
 
-What is NOT proved (hence the summary is still `C08_partial`): `{:.5f}` printing / `float()` of arbitrary doubles
-(values are on the 1e-5 grid), lxml parsing and serialisation and bytes <-> str (the tree is abstract, CHNA strings are
-7-bit), attrs validators other than the ones stated, the AudioStreamFormatWrapper bookkeeping.  Those are covered by
-the document-level search in `harness/c08.py` only.
+* the float leaf (`Model/FloatText.lean`, `Proofs/C08Float.lean`): `"{:.5f}".format` / `float()` (`FloatType` and the
+  bare uses in the hand-written handlers) and `"{:07.5f}".format(float(t))` / `Fraction()` (`SecondsType`) over exact
+  binary64 values: `fmt5_parse_fmt5` (print ∘ parse ∘ print = print for every finite double, no magnitude bound),
+  `parse_fmt5_close`, `parse_fmt5_exact_of_5dec`, `parse_fmt5_idempotent`, `seconds_roundtrip`,
+  `seconds_exact_of_5dec`, and `floatCodec_refines`, which ties the printable-grid float codec of the handler-table
+  model (`Leaf.num k`) to the real text and the real doubles.
+
+What is NOT proved (hence the summary is still `C08_partial`): lxml parsing and serialisation and bytes <-> str (the
+tree is abstract, CHNA strings are 7-bit), attrs validators other than the ones stated, the AudioStreamFormatWrapper
+bookkeeping; at document level the class theorems are stated for values on the 1e-5 grid (`Leaf.num k`; for an
+off-grid double the text is still a fixed point by `fmt5_parse_fmt5`, but a value that PRINTS like a default, e.g.
+width 1e-7, is written and then elided by the second generation).  Those are covered by the document-level search in
+`harness/c08.py` only.
 -/
 import Earverif.Proofs.C08TimeRat
 import Earverif.Proofs.C08Ids
@@ -36,6 +45,7 @@ import Earverif.Proofs.C08Tables
 import Earverif.Proofs.C08Chna
 import Earverif.Proofs.C08Refs
 import Earverif.Model.AdmRefsDoc
+import Earverif.Proofs.C08Float
 
 namespace Earverif.C08
 open Earverif.Digits Earverif.TimeFormat Earverif.GenIds
@@ -1269,15 +1279,121 @@ theorem parsed_reference_fields (pos : Nat) :
 
 end RefsDoc
 
+
+/-! ## The float leaf: `FloatType` and `SecondsType` -/
+
+section FloatLeaf
+open Earverif.FloatText Earverif.Ieee
+
+/-- **Generating XML again reproduces the same bytes, for every float leaf.**  For every finite binary64 number
+(`IsDouble m`: non-negative magnitude that is its own correctly rounded binary64 value, subnormals and the largest
+double included; `neg` is the sign bit, so `-0.0` is covered) the text `"{:.5f}".format(x)` is read by `float()` as a
+binary64 number `y` of the same sign whose text is the same.  No magnitude bound is needed: `y` is at least as close
+to the printed decimal as `x` was (`rn53_nearest`), and an exact tie can only occur towards an even fifth decimal,
+where it is resolved the same way again (`core`). -/
+theorem fmt5_parse_fmt5 (neg : Bool) (m : ℚ) (hm : IsDouble m) :
+    ∃ y, IsDouble y ∧ parseFloat (fmt5 (.fin neg m)) = some (.fin neg y) ∧ fmt5 (.fin neg y) = fmt5 (.fin neg m) :=
+  Earverif.FloatText.fmt5_parse_fmt5 neg m hm
+
+/-- **Numbers as printed to five decimals.**  The value read back is within half a unit of the fifth decimal plus
+the reader's rounding (relative 2^-53) of the value written, and never further than one unit of the fifth decimal.
+The rounding term cannot be dropped (`close_needs_rounding_term`: at 2^35 the doubles are 7.6e-6 apart). -/
+theorem parse_fmt5_close (neg : Bool) (m : ℚ) (hm : IsDouble m) :
+    ∃ y, parseFloat (fmt5 (.fin neg m)) = some (.fin neg y) ∧
+      |(PyFloat.fin neg y).val - (PyFloat.fin neg m).val| ≤ 1 / 200000 + (m + 1 / 200000) / 2 ^ 53 ∧
+      |(PyFloat.fin neg y).val - (PyFloat.fin neg m).val| ≤ 1 / 100000 :=
+  Earverif.FloatText.parse_fmt5_close neg m hm
+
+/-- **parse ∘ print is the identity on parsed documents.**  `x` = the double nearest to a decimal with at most five
+fractional digits, `k / 10^5 < 2^36` (≈ 6.9e10): `x` is a binary64 number, it is printed as exactly
+`[-]⌊k/10^5⌋.ddddd` and that text is read back as `x`.  The bound is sharp for the printed text
+(`grid_bound_sharp`: `2^36 + 0.00001` comes back as `….00002`). -/
+theorem parse_fmt5_exact_of_5dec (neg : Bool) (k : ℕ) (hk : k < 2 ^ 36 * 10 ^ 5) :
+    IsDouble (rn53 ((k : ℚ) / 100000)) ∧
+    fmt5 (.fin neg (rn53 ((k : ℚ) / 100000))) = (if neg then '-' :: numText k else numText k) ∧
+    parseFloat (if neg then '-' :: numText k else numText k) = some (.fin neg (rn53 ((k : ℚ) / 100000))) :=
+  Earverif.FloatText.parse_fmt5_exact_of_5dec neg k hk
+
+/-- second-generation stability of the value with no hypothesis on the magnitude: whatever was read back from a
+printed number is reproduced exactly by every further print / parse -/
+theorem parse_fmt5_idempotent (neg : Bool) (m : ℚ) (hm : IsDouble m) :
+    ∃ y, IsDouble y ∧ parseFloat (fmt5 (.fin neg m)) = some (.fin neg y) ∧
+      parseFloat (fmt5 (.fin neg y)) = some (.fin neg y) :=
+  Earverif.FloatText.parse_fmt5_idempotent neg m hm
+
+/-- `{:07.5f}` and `{:.5f}` print every finite number alike (the width never takes effect) -/
+theorem fmt07_5_fin (neg : Bool) (m : ℚ) : fmt07_5 (.fin neg m) = fmt5 (.fin neg m) :=
+  Earverif.FloatText.fmt07_5_fin neg m
+
+/-- **`SecondsType`** (jumpPosition interpolationLength; the only user of the converter): for a non-negative
+`Fraction` `t` that `float()` can hold (`rn64 t = some x`, i.e. no `OverflowError`) the attribute text is `n` units of
+1e-5; `Fraction()` reads exactly `n / 10^5`; writing that again gives the same text; and `n / 10^5` is within
+`0.5e-5 + t·2^-53` of `t`.  Negative values that round to zero are excluded (`seconds_negative_tiny_excluded`). -/
+theorem seconds_roundtrip (t x : ℚ) (ht : 0 ≤ t) (hx : rn64 t = some x) :
+    ∃ n : ℕ, secondsDumps t = some (numText n) ∧ parseFraction (numText n) = some ((n : ℚ) / 100000) ∧
+      secondsDumps ((n : ℚ) / 100000) = some (numText n) ∧
+      |(n : ℚ) / 100000 - t| ≤ 1 / 200000 + t / 2 ^ 53 :=
+  Earverif.FloatText.seconds_roundtrip t x ht hx
+
+/-- an interpolationLength on the printable grid (a multiple of 1e-5 s below 2^36 s) comes back exactly -/
+theorem seconds_exact_of_5dec (k : ℕ) (hk : k < 2 ^ 36 * 10 ^ 5) :
+    secondsDumps ((k : ℚ) / 100000) = some (numText k) ∧ parseFraction (numText k) = some ((k : ℚ) / 100000) :=
+  Earverif.FloatText.seconds_exact_of_5dec k hk
+
+/-- the float codec of the handler-table model (`Leaf.num k`, used by `handlers_codec_roundtrip` and every class
+theorem) is the real codec restricted to the doubles nearest to `k / 10^5` -/
+theorem floatCodec_refines (k : ℤ) (hk : k.natAbs < 2 ^ 36 * 10 ^ 5) :
+    (Earverif.XmlCodec.dumpsNum k).toList = fmt5 (.fin (decide (k < 0)) (rn53 ((k.natAbs : ℚ) / 100000))) ∧
+    parseFloat (Earverif.XmlCodec.dumpsNum k).toList = some (.fin (decide (k < 0)) (rn53 ((k.natAbs : ℚ) / 100000))) ∧
+    Earverif.XmlCodec.loadsNum (Earverif.XmlCodec.dumpsNum k) = some k ∧
+    IsDouble (rn53 ((k.natAbs : ℚ) / 100000)) :=
+  Earverif.FloatText.floatCodec_refines k hk
+
+/-- sharpness / excluded points, checked by the kernel on the executable model -/
+theorem float_leaf_excluded_points :
+    -- above 2^36 a five-decimal text need not survive parse -> print
+    roundHalfEven (rn53 (mkRat (2 ^ 36 * 10 ^ 5 + 1) 100000) * 100000) = 2 ^ 36 * 10 ^ 5 + 2 ∧
+    -- 2^35 + 2^-16 is a double that comes back 2^-17 > 0.5e-5 away
+    (rn53 ((roundHalfEven (mkRat (2 ^ 52 + 2) (2 ^ 17) * 100000) : ℚ) / 100000) - mkRat (2 ^ 52 + 2) (2 ^ 17)
+      = mkRat 1 (2 ^ 17) ∧ rn53 (mkRat (2 ^ 52 + 2) (2 ^ 17)) = mkRat (2 ^ 52 + 2) (2 ^ 17)) ∧
+    -- SecondsType: a negative value that rounds to zero is not a fixed point (Fraction has no -0)
+    (secondsDumps (mkRat (-1) (10 ^ 9)) = some ['-', '0', '.', '0', '0', '0', '0', '0'] ∧
+      parseFraction ['-', '0', '.', '0', '0', '0', '0', '0'] = some 0 ∧
+      secondsDumps 0 = some ['0', '.', '0', '0', '0', '0', '0']) ∧
+    -- FloatType keeps the sign of zero
+    (parseFloat ['-', '0', '.', '0', '0', '0', '0', '0'] = some (.fin true 0) ∧
+      fmt5 (.fin true 0) = ['-', '0', '.', '0', '0', '0', '0', '0']) :=
+  ⟨grid_bound_sharp, close_needs_rounding_term, seconds_negative_tiny_excluded, float_negative_tiny_stable⟩
+
+/-! non-vacuity: concrete doubles satisfy `IsDouble` (0.1 = 3602879701896397 / 2^55, the smallest subnormal, the
+largest double, an exact tie 3/64), a `Fraction` that `float()` can hold, and the theorems compute on them -/
+example : IsDouble (mkRat 3602879701896397 (2 ^ 55)) ∧ IsDouble (mkRat 1 (2 ^ 1074)) ∧
+    IsDouble (mkRat (2 ^ 1024 - 2 ^ 971) 1) ∧ IsDouble (mkRat 3 64) ∧ IsDouble 0 := by
+  unfold IsDouble; decide +kernel
+
+example : fmt5 (.fin false (mkRat 3602879701896397 (2 ^ 55))) = ['0', '.', '1', '0', '0', '0', '0'] ∧
+    fmt5 (.fin true (mkRat 3 64)) = ['-', '0', '.', '0', '4', '6', '8', '8'] ∧
+    fmt5 (.fin false (mkRat 1 64)) = ['0', '.', '0', '1', '5', '6', '2'] ∧
+    parseFloat ['0', '.', '1', '0', '0', '0', '0'] = some (.fin false (mkRat 3602879701896397 (2 ^ 55))) := by
+  decide +kernel
+
+example : rn64 (mkRat 1 3) = some (mkRat 6004799503160661 (2 ^ 54)) ∧
+    secondsDumps (mkRat 1 3) = some ['0', '.', '3', '3', '3', '3', '3'] := by decide +kernel
+
+example : (12345678 : ℕ) < 2 ^ 36 * 10 ^ 5 ∧ numText 12345678 = ['1', '2', '3', '.', '4', '5', '6', '7', '8'] := by
+  decide +kernel
+
+end FloatLeaf
+
 /-! ## Summary -/
 
 /-- **C08, partial.**  The conjunction of the leaf and ID claims above, the class-level round trips of the XML
 layer for both versions (document level, `C08_roundtrip_model`), the CHNA <-> audioTrackUID transfer (both directions,
 CHNA-only documents) and the id map / reference resolution (duplicate ids rejected, closed documents resolved,
-dangling references rejected, write → parse gives back the same ids in every reference attribute).  Still missing for
-the full property, and covered only by the generated-document search of the harness: five-decimal printing / reading
-of arbitrary doubles (values are on the 1e-5 grid), lxml and the byte level of AXML (the tree is abstract), attrs
-validators. -/
+dangling references rejected, write → parse gives back the same ids in every reference attribute).  The float leaf is
+proved separately (section FloatLeaf: `fmt5_parse_fmt5`, `parse_fmt5_close`, `parse_fmt5_exact_of_5dec`,
+`seconds_roundtrip`, `floatCodec_refines`).  Still missing for the full property, and covered only by the
+generated-document search of the harness: lxml and the byte level of AXML (the tree is abstract), attrs validators. -/
 theorem C08_partial :
     (∀ (q : ℚ), 0 ≤ q → q < 360000 → ExactDecimal q → ∀ af, ∃ s, unparseTime af (.dec q) = .ok s ∧
         parseTime s = some (.dec q) ∧ parseTimeV1 s = some (.dec q)) ∧
